@@ -89,38 +89,103 @@ def c_remap_curie_prefixes(converter: Converter, remapping: dict[str, str]):
 def c_get_uri_preferred_or_synonym(record: Record, upgrades: dict[str, str]):
     pure()
     ensures(result == mapped_uri(record, upgrades))
+    # the same, relationally (what callers reason with)
+    ensures((result is None) == (not any(s in upgrades for s in U(record))))
+    ensures(implies(result is not None, any(s in upgrades and upgrades[s] == result for s in U(record))))
 
 
 @contract("reconciliation._get_curie_preferred_or_synonym", props=["C12"], returns="str|None")
 def c_get_curie_preferred_or_synonym(record: Record, upgrades: dict[str, str]):
     pure()
     ensures(result == mapped_curie(record, upgrades))
+    ensures((result is None) == (not any(s in upgrades for s in P(record))))
+    ensures(implies(result is not None, any(s in upgrades and upgrades[s] == result for s in P(record))))
+
+
+def injective(m):
+    return all(k1 == k2 or m[k1] != m[k2] for k1 in m for k2 in m)
+
+
+def upgraded(c, r, q, new):
+    """q is what r becomes when asked to take URI prefix `new` (None: not asked) — C12, stated without sorting."""
+    return (
+        q.prefix == r.prefix and P(q) == P(r) and q.pattern == r.pattern and RecInv(q)
+        and ((q.uri_prefix == r.uri_prefix and U(q) == U(r))
+             if (new is None or (new in c.reverse_prefix_map and new not in r.uri_prefix_synonyms))
+             else (q.uri_prefix == new and U(q) == (U(r) | {new})))
+    )
+
+
+def upgraded_vals(rpm, r_prefix, r_uri, r_pattern, r_P, r_U, r_usyn, q, m, keys=None):
+    """q is a record (prefix r_prefix, ...) re-pointed by a mapping keyed on one of its own URI prefixes (which key is
+    the helper's business): CURIE side untouched; either nothing changed, or the mapped value became canonical and
+    every old URI prefix was kept. The old record is given by value so that it can be read in another state than q."""
+    return (
+        q.prefix == r_prefix and P(q) == r_P and q.pattern == r_pattern and RecInv(q)
+        and ((q.uri_prefix == r_uri and U(q) == r_U)
+             or any(s in m and q.uri_prefix == m[s] and U(q) == (r_U | {m[s]})
+                    and not (m[s] in rpm and m[s] not in r_usyn) for s in (r_U if keys is None else keys)))
+        and (any(s in m for s in (r_U if keys is None else keys)) or (q.uri_prefix == r_uri and U(q) == r_U))
+    )
+
+
+def upgraded_by_some_key(c, r, q, m):
+    return upgraded_vals(c.reverse_prefix_map, r.prefix, r.uri_prefix, r.pattern, P(r), U(r), r.uri_prefix_synonyms, q, m)
 
 
 @contract("reconciliation.remap_uri_prefixes", props=["C12", "C10"], returns="Converter")
 def c_remap_uri_prefixes(converter: Converter, remapping: dict[str, str]):
     requires(WF(converter))
-    requires(len(set(remapping.values())) == len(remapping))          # injective
+    requires(injective(remapping))
     raises(TransitiveError, when=any(k in remapping.values() for k in remapping))
     ensures(WF(result) and len(result.records) == len(converter.records))
+    ensures(all(any(upgraded_by_some_key(converter, r, q, remapping) for q in result.records) for r in converter.records))
+    ensures(all(any(upgraded(converter, r, q, mapped_uri(r, remapping)) for q in result.records) for r in converter.records), native=True)
     ensures(all(result.get_record(r.prefix) is not None
                 and upgraded_ok(converter, r, result.get_record(r.prefix), mapped_uri(r, remapping))
-                for r in converter.records))
-    ensures(conv_state(converter) == old(conv_state(converter)))
-    ensures(all(q is not r for q in result.records for r in converter.records))
+                for r in converter.records), native=True)
+    ensures(_fresh(result) and all(_fresh(q) for q in result.records), symbolic=True)
+    ensures(conv_state(converter) == old(conv_state(converter)), native=True)
+    ensures(all(q is not r for q in result.records for r in converter.records), native=True)
 
 
-@contract("reconciliation.rewire", props=["C12", "C10"], returns="Converter")
+@invariant("reconciliation.remap_uri_prefixes", loop=0)
+def inv_remap_uri(converter, remapping, records: list[Record], _i, _xs, _pre):
+    return (_frame() and _xs == _pre(converter.records) and len(records) == _i
+            and all(_fresh(records[k]) and _alloc(records[k]) for k in range(_i))
+            and all(records[k] is not records[k2] for k in range(_i) for k2 in range(_i) if k != k2)
+            and all(upgraded_vals(_pre(converter.reverse_prefix_map), _pre(_xs[k].prefix), _pre(_xs[k].uri_prefix), _pre(_xs[k].pattern),
+                                  _pre(P(_xs[k])), _pre(U(_xs[k])), _pre(_xs[k].uri_prefix_synonyms), records[k], remapping) for k in range(_i)))
+
+
+def one_key_per_record(c, m):
+    return all(k1 == k2 or not (known(c, k1) and known(c, k2)) or owner(c, k1) is not owner(c, k2) for k1 in m for k2 in m)
+
+
+@contract("reconciliation.rewire", props=["C12", "C10"], returns="Converter",
+          partial="182 of 183 obligations discharge; open: preservation of the per-record upgrade clause on the path that re-points a record (no back end decides it within 120 s)")
 def c_rewire(converter: Converter, rewiring: dict[str, str]):
     requires(WF(converter))
-    requires(len(set(rewiring.values())) == len(rewiring))            # injective
-    requires(len({owner(converter, k).prefix for k in rewiring if known(converter, k)}) == len([k for k in rewiring if known(converter, k)]))
+    requires(injective(rewiring))
+    requires(one_key_per_record(converter, rewiring))
     ensures(WF(result) and len(result.records) == len(converter.records))
+    ensures(all(any(upgraded_vals(converter.reverse_prefix_map, r.prefix, r.uri_prefix, r.pattern, P(r), U(r), r.uri_prefix_synonyms, q, rewiring, P(r))
+                    for q in result.records) for r in converter.records))
     ensures(all(result.get_record(r.prefix) is not None
                 and upgraded_ok(converter, r, result.get_record(r.prefix), mapped_curie(r, rewiring))
-                for r in converter.records))
-    ensures(conv_state(converter) == old(conv_state(converter)))
-    ensures(all(q is not r for q in result.records for r in converter.records))
+                for r in converter.records), native=True)
+    ensures(_fresh(result) and all(_fresh(q) for q in result.records), symbolic=True)
+    ensures(conv_state(converter) == old(conv_state(converter)), native=True)
+    ensures(all(q is not r for q in result.records for r in converter.records), native=True)
+
+
+@invariant("reconciliation.rewire", loop=0)
+def inv_rewire(converter, rewiring, records: list[Record], _i, _xs, _pre):
+    return (_frame() and _xs == _pre(converter.records) and len(records) == _i
+            and all(_fresh(records[k]) and _alloc(records[k]) for k in range(_i))
+            and all(records[k] is not records[k2] for k in range(_i) for k2 in range(_i) if k != k2)
+            and all(upgraded_vals(_pre(converter.reverse_prefix_map), _pre(_xs[k].prefix), _pre(_xs[k].uri_prefix), _pre(_xs[k].pattern),
+                                  _pre(P(_xs[k])), _pre(U(_xs[k])), _pre(_xs[k].uri_prefix_synonyms), records[k], rewiring, _pre(P(_xs[k]))) for k in range(_i)))
 
 
 @lemma("C12.rewire_idempotent", props=["C12"], bounded_only="two-call composition compared on whole-converter state; per-call behaviour is the contract of rewire")
